@@ -30,25 +30,71 @@ From Emmet Require Import lib.Base lib.StyleLib lib.ConfigLib lib.ConfigVal gen.
 Import ListNotations.
 Local Open Scope N_scope.
 
-Definition s_stylesheet : str := lit "stylesheet".
+(* the keys, as code-point lists (computed here so that the extracted model does not carry Coq strings) *)
+Definition s_stylesheet : str := Eval vm_compute in lit "stylesheet".
+Definition k_inlineElements : str := Eval vm_compute in lit "inlineElements".
+Definition k_output_indent : str := Eval vm_compute in lit "output.indent".
+Definition k_output_baseIndent : str := Eval vm_compute in lit "output.baseIndent".
+Definition k_output_newline : str := Eval vm_compute in lit "output.newline".
+Definition k_output_tagCase : str := Eval vm_compute in lit "output.tagCase".
+Definition k_output_attributeCase : str := Eval vm_compute in lit "output.attributeCase".
+Definition k_output_attributeQuotes : str := Eval vm_compute in lit "output.attributeQuotes".
+Definition k_output_format : str := Eval vm_compute in lit "output.format".
+Definition k_output_formatLeafNode : str := Eval vm_compute in lit "output.formatLeafNode".
+Definition k_output_formatSkip : str := Eval vm_compute in lit "output.formatSkip".
+Definition k_output_formatForce : str := Eval vm_compute in lit "output.formatForce".
+Definition k_output_inlineBreak : str := Eval vm_compute in lit "output.inlineBreak".
+Definition k_output_compactBoolean : str := Eval vm_compute in lit "output.compactBoolean".
+Definition k_output_booleanAttributes : str := Eval vm_compute in lit "output.booleanAttributes".
+Definition k_output_reverseAttributes : str := Eval vm_compute in lit "output.reverseAttributes".
+Definition k_output_selfClosingStyle : str := Eval vm_compute in lit "output.selfClosingStyle".
+Definition k_output_field : str := Eval vm_compute in lit "output.field".
+Definition k_output_text : str := Eval vm_compute in lit "output.text".
+Definition k_markup_href : str := Eval vm_compute in lit "markup.href".
+Definition k_markup_attributes : str := Eval vm_compute in lit "markup.attributes".
+Definition k_markup_valuePrefix : str := Eval vm_compute in lit "markup.valuePrefix".
+Definition k_comment_enabled : str := Eval vm_compute in lit "comment.enabled".
+Definition k_comment_trigger : str := Eval vm_compute in lit "comment.trigger".
+Definition k_comment_before : str := Eval vm_compute in lit "comment.before".
+Definition k_comment_after : str := Eval vm_compute in lit "comment.after".
+Definition k_bem_enabled : str := Eval vm_compute in lit "bem.enabled".
+Definition k_bem_element : str := Eval vm_compute in lit "bem.element".
+Definition k_bem_modifier : str := Eval vm_compute in lit "bem.modifier".
+Definition k_jsx_enabled : str := Eval vm_compute in lit "jsx.enabled".
+Definition k_stylesheet_keywords : str := Eval vm_compute in lit "stylesheet.keywords".
+Definition k_stylesheet_unitless : str := Eval vm_compute in lit "stylesheet.unitless".
+Definition k_stylesheet_shortHex : str := Eval vm_compute in lit "stylesheet.shortHex".
+Definition k_stylesheet_between : str := Eval vm_compute in lit "stylesheet.between".
+Definition k_stylesheet_after : str := Eval vm_compute in lit "stylesheet.after".
+Definition k_stylesheet_intUnit : str := Eval vm_compute in lit "stylesheet.intUnit".
+Definition k_stylesheet_floatUnit : str := Eval vm_compute in lit "stylesheet.floatUnit".
+Definition k_stylesheet_unitAliases : str := Eval vm_compute in lit "stylesheet.unitAliases".
+Definition k_stylesheet_json : str := Eval vm_compute in lit "stylesheet.json".
+Definition k_stylesheet_jsonDoubleQuotes : str := Eval vm_compute in lit "stylesheet.jsonDoubleQuotes".
+Definition k_stylesheet_fuzzySearchMinScore : str := Eval vm_compute in lit "stylesheet.fuzzySearchMinScore".
+Definition k_stylesheet_skipUnmatched : str := Eval vm_compute in lit "stylesheet.skipUnmatched".
+Definition k_text : str := Eval vm_compute in lit "text".
+Definition k_maxRepeat : str := Eval vm_compute in lit "maxRepeat".
+Definition k_max_repeat : str := Eval vm_compute in lit "max_repeat".
+Definition k_context : str := Eval vm_compute in lit "context".
 
 (* ------------------------------------------------------------------ the view *)
 (* every option key one of the two pipelines reads *)
 Definition option_keys : list str :=
-  [lit "inlineElements"; lit "output.indent"; lit "output.baseIndent"; lit "output.newline";
-   lit "output.tagCase"; lit "output.attributeCase"; lit "output.attributeQuotes"; lit "output.format";
-   lit "output.formatLeafNode"; lit "output.formatSkip"; lit "output.formatForce"; lit "output.inlineBreak";
-   lit "output.compactBoolean"; lit "output.booleanAttributes"; lit "output.reverseAttributes";
-   lit "output.selfClosingStyle"; lit "output.field"; lit "output.text"; lit "markup.href";
-   lit "markup.attributes"; lit "markup.valuePrefix";
-   lit "comment.enabled"; lit "comment.trigger"; lit "comment.before"; lit "comment.after";
-   lit "bem.enabled"; lit "bem.element"; lit "bem.modifier"; lit "jsx.enabled";
-   lit "stylesheet.keywords"; lit "stylesheet.unitless"; lit "stylesheet.shortHex"; lit "stylesheet.between";
-   lit "stylesheet.after"; lit "stylesheet.intUnit"; lit "stylesheet.floatUnit"; lit "stylesheet.unitAliases";
-   lit "stylesheet.json"; lit "stylesheet.jsonDoubleQuotes"; lit "stylesheet.fuzzySearchMinScore";
-   lit "stylesheet.skipUnmatched"].
+  [k_inlineElements; k_output_indent; k_output_baseIndent; k_output_newline;
+   k_output_tagCase; k_output_attributeCase; k_output_attributeQuotes; k_output_format;
+   k_output_formatLeafNode; k_output_formatSkip; k_output_formatForce; k_output_inlineBreak;
+   k_output_compactBoolean; k_output_booleanAttributes; k_output_reverseAttributes;
+   k_output_selfClosingStyle; k_output_field; k_output_text; k_markup_href;
+   k_markup_attributes; k_markup_valuePrefix;
+   k_comment_enabled; k_comment_trigger; k_comment_before; k_comment_after;
+   k_bem_enabled; k_bem_element; k_bem_modifier; k_jsx_enabled;
+   k_stylesheet_keywords; k_stylesheet_unitless; k_stylesheet_shortHex; k_stylesheet_between;
+   k_stylesheet_after; k_stylesheet_intUnit; k_stylesheet_floatUnit; k_stylesheet_unitAliases;
+   k_stylesheet_json; k_stylesheet_jsonDoubleQuotes; k_stylesheet_fuzzySearchMinScore;
+   k_stylesheet_skipUnmatched].
 (* entries of the call's own config besides type / syntax / the three sections *)
-Definition other_keys : list str := [lit "text"; lit "maxRepeat"; lit "max_repeat"; lit "context"].
+Definition other_keys : list str := [k_text; k_maxRepeat; k_max_repeat; k_context].
 
 Record cview := mkView {
   v_type : str;
@@ -136,41 +182,41 @@ Fixpoint strs_of_dict (d : dict cval) : option (list (str * str)) :=
 Definition decode_markup (v : cview) : option xconfig :=
   do snippets <- strs_of_dict (v_snippets v);
   do variables <- strs_of_dict (v_variables v);
-  do text <- get_text (oth v (lit "text"));
-  do mr_a <- get_num_opt (oth v (lit "maxRepeat"));
-  do mr_b <- get_num_opt (oth v (lit "max_repeat"));
-  do _ <- is_absent (oth v (lit "context"));
+  do text <- get_text (oth v (k_text));
+  do mr_a <- get_num_opt (oth v (k_maxRepeat));
+  do mr_b <- get_num_opt (oth v (k_max_repeat));
+  do _ <- is_absent (oth v (k_context));
   (* cfg.get('maxRepeat') or cfg.get('max_repeat') *)
   let max_repeat := match mr_a with Some n => if n =? 0 then mr_b else Some n | None => mr_b end in
-  do _ <- expect (fun c => match c with CFieldDefault => true | _ => false end) (opt v (lit "output.field"));
-  do _ <- expect (fun c => match c with CTextDefault => true | _ => false end) (opt v (lit "output.text"));
-  do jsx <- truthy (opt v (lit "jsx.enabled"));
-  do inline <- get_strs (opt v (lit "inlineElements"));
-  do reverse <- truthy (opt v (lit "output.reverseAttributes"));
-  do href <- truthy (opt v (lit "markup.href"));
-  do indent <- get_str (opt v (lit "output.indent"));
-  do base_indent <- get_str (opt v (lit "output.baseIndent"));
-  do newline <- get_str (opt v (lit "output.newline"));
-  do tag_case <- get_str (opt v (lit "output.tagCase"));
-  do attr_case <- get_str (opt v (lit "output.attributeCase"));
-  do attr_quotes <- get_str (opt v (lit "output.attributeQuotes"));
-  do format <- truthy (opt v (lit "output.format"));
-  do format_leaf <- truthy (opt v (lit "output.formatLeafNode"));
-  do format_skip <- get_strs (opt v (lit "output.formatSkip"));
-  do format_force <- get_strs (opt v (lit "output.formatForce"));
-  do inline_break <- get_inline_break (opt v (lit "output.inlineBreak"));
-  do compact_boolean <- truthy (opt v (lit "output.compactBoolean"));
-  do boolean_attrs <- get_strs (opt v (lit "output.booleanAttributes"));
-  do self_closing <- get_str (opt v (lit "output.selfClosingStyle"));
-  do comment_enabled <- truthy (opt v (lit "comment.enabled"));
-  do comment_trigger <- get_strs (opt v (lit "comment.trigger"));
-  do comment_before <- get_str (opt v (lit "comment.before"));
-  do comment_after <- get_str (opt v (lit "comment.after"));
-  do markup_attributes <- get_pairs_opt (opt v (lit "markup.attributes"));
-  do value_prefix <- get_pairs_opt (opt v (lit "markup.valuePrefix"));
-  do bem_enabled <- truthy (opt v (lit "bem.enabled"));
-  do bem_element <- (if bem_enabled then expect_str (opt v (lit "bem.element")) else Some []);
-  do bem_modifier <- (if bem_enabled then expect_str (opt v (lit "bem.modifier")) else Some []);
+  do _ <- expect (fun c => match c with CFieldDefault => true | _ => false end) (opt v (k_output_field));
+  do _ <- expect (fun c => match c with CTextDefault => true | _ => false end) (opt v (k_output_text));
+  do jsx <- truthy (opt v (k_jsx_enabled));
+  do inline <- get_strs (opt v (k_inlineElements));
+  do reverse <- truthy (opt v (k_output_reverseAttributes));
+  do href <- truthy (opt v (k_markup_href));
+  do indent <- get_str (opt v (k_output_indent));
+  do base_indent <- get_str (opt v (k_output_baseIndent));
+  do newline <- get_str (opt v (k_output_newline));
+  do tag_case <- get_str (opt v (k_output_tagCase));
+  do attr_case <- get_str (opt v (k_output_attributeCase));
+  do attr_quotes <- get_str (opt v (k_output_attributeQuotes));
+  do format <- truthy (opt v (k_output_format));
+  do format_leaf <- truthy (opt v (k_output_formatLeafNode));
+  do format_skip <- get_strs (opt v (k_output_formatSkip));
+  do format_force <- get_strs (opt v (k_output_formatForce));
+  do inline_break <- get_inline_break (opt v (k_output_inlineBreak));
+  do compact_boolean <- truthy (opt v (k_output_compactBoolean));
+  do boolean_attrs <- get_strs (opt v (k_output_booleanAttributes));
+  do self_closing <- get_str (opt v (k_output_selfClosingStyle));
+  do comment_enabled <- truthy (opt v (k_comment_enabled));
+  do comment_trigger <- get_strs (opt v (k_comment_trigger));
+  do comment_before <- get_str (opt v (k_comment_before));
+  do comment_after <- get_str (opt v (k_comment_after));
+  do markup_attributes <- get_pairs_opt (opt v (k_markup_attributes));
+  do value_prefix <- get_pairs_opt (opt v (k_markup_valuePrefix));
+  do bem_enabled <- truthy (opt v (k_bem_enabled));
+  do bem_element <- (if bem_enabled then expect_str (opt v (k_bem_element)) else Some []);
+  do bem_modifier <- (if bem_enabled then expect_str (opt v (k_bem_modifier)) else Some []);
   Some (mkX (mkMConfig (v_syntax v) snippets variables text max_repeat mr_b jsx None inline reverse href
                        bem_enabled bem_element bem_modifier None)
             (mkOconfig (mkOfmt indent base_indent newline) tag_case attr_case attr_quotes format format_leaf
